@@ -1,4 +1,5 @@
 import Sudachi.Proofs.Numeric
+import Sudachi.Proofs.NumericLang
 /-!
 # C15 — joined numerals are normalised to their decimal value
 
@@ -14,91 +15,106 @@ fraction.  `canonDigits`/`canonInt` are the decimal renderings (separators remov
 leading zeros of plain digit strings kept), `trimZeros` drops trailing fractional zeros and
 `fracPart` drops the point when nothing is left.
 
+The model carries one switch per repair of the findings F1–F6 (`Numeric.Variant`): `Variant.pinned`
+is the code as pinned, `Variant.repaired` the code after `fix_F1.patch` … `fix_F6.patch`; the harness
+names the variant of the tree it is linked against on every case line.  Theorems that hold for every
+variant are stated with `(v : Variant)`; a theorem that needs a repair names the switch it needs.
+
 Full statement of the property's first clause (`parse_render`): for every numeral AST `a` built from
 digits, separators, a fraction and the units 十百千万億兆, `parse (render a) = some (canon a)`.
 It is proved below for all ASTs WITHOUT units (`parse_render_digits`, `parse_render_grouped`,
-`parse_render_decimal`); for unit notation only instances are proved (`parse_render_units_partial`)
-and the clause is FALSE for coefficients below one (`parse_render_counterexample_leading_zero`).
+`parse_render_decimal`, every variant); for unit notation only instances are proved
+(`parse_render_units_partial`, pinned and repaired).  For the pinned code the clause is FALSE for
+coefficients below one (`parse_render_counterexample_leading_zero`, F5); with repair F5 the normal
+form of a numeral with a unit never has a leading zero (`unit_normal_form_no_leading_zero`).
 
 Full statement of the second clause (`reject_malformed`): if `parse text = some s` then `text` is
-`render a` for some AST `a` (so a malformed grouping is never joined into a value).  This is FALSE
-for the code as it is (five counterexample theorems); the near-miss families that ARE rejected for
-every instance are `reject_dangling_point`, `reject_bad_last_group`, `reject_leading_separator`
-(`reject_malformed_partial` family).
+`render a` for some well-formed AST `a` (so a malformed grouping is never joined into a value).
+This is FALSE for the pinned code (counterexample theorems F1–F4, and F6 at the plugin) and PROVED
+for the repaired code (`reject_malformed`): the AST obeys the separator rules in every written
+number, has no dangling point, every large unit has something in front of it, the large units
+strictly decrease and the terms fit positionally (`Numeral.WF`, `Numeral.Fits`; the small units of a
+group then strictly decrease, `wellformed_small_units_decrease`).  Each of the four near-miss
+families is also rejected wherever it occurs in a text by its own repair alone (`reject_*_anywhere`).
+The near-miss families that are rejected by every variant are `reject_dangling_point`,
+`reject_bad_last_group`, `reject_leading_separator`.
 -/
 namespace C15
 open Numeric
 
 /-- Clause 1, plain digit strings (ASCII, kanji or mixed digits, any length, leading zeros kept):
 the normalised form is the ASCII digit string. -/
-theorem parse_render_digits (ds : List Dg) (hne : ds ≠ []) :
-    parse (renderDigits ds) = some (canonDigits ds) :=
-  parse_digits ds hne
+theorem parse_render_digits (v : Variant) (ds : List Dg) (hne : ds ≠ []) :
+    parse v (renderDigits ds) = some (canonDigits ds) :=
+  parse_digits v ds hne
 
 /-- Clause 1, integers with thousands separators: a first group of 1–3 digits that is not all zeros
 and any number of three-digit groups; the separators are removed.  (`gs = []` is the plain case.) -/
-theorem parse_render_grouped (i : IntPart) (hwf : i.WF) : parse (renderInt i) = some (canonInt i) :=
-  parse_int i hwf
+theorem parse_render_grouped (v : Variant) (i : IntPart) (hwf : i.WF) :
+    parse v (renderInt i) = some (canonInt i) :=
+  parse_int v i hwf
 
 /-- Clause 1, decimals: integer part as above, a point and at least one fraction digit; trailing
 fractional zeros are dropped, and the point too when the fraction is all zeros. -/
-theorem parse_render_decimal (i : IntPart) (hwf : i.WF) (fs : List Dg) (hfs : fs ≠ []) :
-    parse (renderInt i ++ '.' :: renderDigits fs) =
+theorem parse_render_decimal (v : Variant) (i : IntPart) (hwf : i.WF) (fs : List Dg) (hfs : fs ≠ []) :
+    parse v (renderInt i ++ '.' :: renderDigits fs) =
       some (canonInt i ++ fracPart (trimZeros (canonDigits fs))) :=
-  Numeric.parse_decimal i hwf fs hfs
+  Numeric.parse_decimal v i hwf fs hfs
 
 /-- Clause 1, unit notation — PARTIAL: only these instances (the unit-test numerals and one numeral
 per combination rule: small units, large units, coefficient with fraction, zeros between units, a
 25-digit value) are proved; the general theorem over all unit ASTs is not.  The remaining
 combinations are covered by the exhaustive correspondence (all strings up to length 4/5) and the
 value-driven oracle. -/
-theorem parse_render_units_partial :
-    parse "千三百二十七".toList = some "1327".toList ∧
-    parse "千十七".toList = some "1017".toList ∧
-    parse "三兆2千億千三百二十七万一四.〇五".toList = some "3200013270014.05".toList ∧
-    parse "1.5百万1.5千20".toList = some "1501520".toList ∧
-    parse "259万2,300".toList = some "2592300".toList ∧
-    parse "200000000000000000000万".toList = some "2000000000000000000000000".toList ∧
-    parse "一億〇五".toList = some "100000005".toList ∧
-    parse "1.23456万".toList = some "12345.6".toList := by
-  refine ⟨by decide, by decide, by decide, by decide, by decide, by decide, by decide, by decide⟩
+theorem parse_render_units_partial (v : Variant) (hv : v = Variant.pinned ∨ v = Variant.repaired) :
+    parse v "千三百二十七".toList = some "1327".toList ∧
+    parse v "千十七".toList = some "1017".toList ∧
+    parse v "三兆2千億千三百二十七万一四.〇五".toList = some "3200013270014.05".toList ∧
+    parse v "1.5百万1.5千20".toList = some "1501520".toList ∧
+    parse v "259万2,300".toList = some "2592300".toList ∧
+    parse v "200000000000000000000万".toList = some "2000000000000000000000000".toList ∧
+    parse v "一億〇五".toList = some "100000005".toList ∧
+    parse v "1.23456万".toList = some "12345.6".toList := by
+  rcases hv with rfl | rfl <;>
+    refine ⟨by decide, by decide, by decide, by decide, by decide, by decide, by decide, by decide⟩
 
 /-- Clause 1 fails for a coefficient below one in front of a unit: the value is right but the
 rendering keeps the integer zero (finding F5). -/
 theorem parse_render_counterexample_leading_zero :
-    parse "0.1万".toList = some "01000".toList ∧ parse "0.5百".toList = some "050".toList := by
+    parse .pinned "0.1万".toList = some "01000".toList ∧ parse .pinned "0.5百".toList = some "050".toList := by
   refine ⟨by decide, by decide⟩
 
 /-- Clause 2, dangling point: an integer part followed by a point and nothing else is never
 accepted. -/
-theorem reject_dangling_point (i : IntPart) (hwf : i.WF) : parse (renderInt i ++ ['.']) = none := by
-  obtain ⟨_, _, _, p4, p5, _, p7, _, p9, _⟩ := intState_props i hwf
-  have hf := feed_int i hwf ['.']
-  have hpt : (intState i).append '.' = (true, (intState i).pushPoint) := by
-    apply append_point _ p7 _ p4 p5
+theorem reject_dangling_point (v : Variant) (i : IntPart) (hwf : i.WF) :
+    parse v (renderInt i ++ ['.']) = none := by
+  obtain ⟨_, _, _, p4, p5, _, p7, _, p9, _, _⟩ := intState_props i hwf
+  have hf := feed_int v i hwf ['.']
+  have hpt : (intState i).append v '.' = (true, (intState i).pushPoint) := by
+    apply append_point v _ p7 _ p4 p5
     rcases p9 with h | h
     · exact Or.inl h
     · right
-      simp [Parser.checkComma, p7, h.1, h.2]
+      simp [Parser.checkComma, p7, h.1, h.2, p5]
   simp only [Parser.feed, hpt] at hf
-  exact parse_none_of_done_false _ _ _ hf (done_hanging _ (by simp [Parser.pushPoint]))
+  exact parse_none_of_done_false v _ _ _ hf (done_hanging v _ (by simp [Parser.pushPoint]))
 
 /-- Clause 2, bad last group: a well-formed integer part followed by a separator and a group that
 does not have exactly three digits (including the empty group, i.e. a trailing separator) is never
 accepted. -/
-theorem reject_bad_last_group (i : IntPart) (hwf : i.WF) (g : List Dg) (hg : g.length ≠ 3) :
-    parse (renderInt i ++ ',' :: renderDigits g) = none := by
-  obtain ⟨_, _, _, _, _, _, _, p8, _, _⟩ := intState_props i hwf
-  have hf := feed_int i hwf (',' :: renderDigits g)
-  cases hc : (intState i).checkComma with
+theorem reject_bad_last_group (v : Variant) (i : IntPart) (hwf : i.WF) (g : List Dg) (hg : g.length ≠ 3) :
+    parse v (renderInt i ++ ',' :: renderDigits g) = none := by
+  obtain ⟨_, _, _, _, _, _, _, p8, _, _, _⟩ := intState_props i hwf
+  have hf := feed_int v i hwf (',' :: renderDigits g)
+  cases hc : (intState i).checkComma v with
   | false =>
-    simp only [Parser.feed, append_comma_reject _ hc] at hf
-    exact parse_none_of_reject _ _ _ hf
+    simp only [Parser.feed, append_comma_reject v _ hc] at hf
+    exact parse_none_of_reject v _ _ _ hf
   | true =>
-    simp only [Parser.feed, append_comma _ hc] at hf
+    simp only [Parser.feed, append_comma v _ hc] at hf
     rw [feed_digits] at hf
     obtain ⟨_, _, _, _, _, s6, _, s8⟩ := pushDigits_tmp_scale g (intState i).pushComma
-    apply parse_none_of_done_false _ _ _ hf
+    apply parse_none_of_done_false v _ _ _ hf
     apply done_bad_group
     · cases g with
       | nil => simpa [Parser.pushDigits, Parser.pushComma] using p8
@@ -107,34 +123,35 @@ theorem reject_bad_last_group (i : IntPart) (hwf : i.WF) (g : List Dg) (hg : g.l
     · rw [s8]; simpa [Parser.pushComma] using hg
 
 /-- Clause 2, a numeral never starts with a separator. -/
-theorem reject_leading_separator (rest : List Char) :
-    parse ('.' :: rest) = none ∧ parse (',' :: rest) = none := by
+theorem reject_leading_separator (v : Variant) (rest : List Char) :
+    parse v ('.' :: rest) = none ∧ parse v (',' :: rest) = none := by
   constructor
-  · apply parse_none_of_reject _ 0 { Parser.new with hasHangingPoint := true, err := .point }
+  · apply parse_none_of_reject v _ 0 { Parser.new with hasHangingPoint := true, err := .point }
     simp [Parser.feed, Parser.append, Parser.new]
-  · apply parse_none_of_reject _ 0 { Parser.new with err := .comma }
+  · apply parse_none_of_reject v _ 0 { Parser.new with err := .comma }
     simp [Parser.feed, Parser.append, Parser.new, Parser.checkComma]
 
 /-- Clause 2 is violated by the code as it is: separators inside the fraction are accepted
 (finding F1). -/
 theorem reject_malformed_counterexample_comma_in_fraction :
-    parse "1.5,000".toList = some "1.5".toList ∧ parse "7.,227".toList = some "7.227".toList := by
+    parse .pinned "1.5,000".toList = some "1.5".toList ∧ parse .pinned "7.,227".toList = some "7.227".toList := by
   refine ⟨by decide, by decide⟩
 
 /-- Clause 2 violated: a dangling point directly before a unit is accepted once a digit follows
 (finding F2). -/
 theorem reject_malformed_counterexample_point_before_unit :
-    parse "1.千5".toList = some "1005".toList := by decide
+    parse .pinned "1.千5".toList = some "1005".toList := by decide
 
 /-- Clause 2 violated: a bad last separator group directly before a unit is accepted (finding F3). -/
 theorem reject_malformed_counterexample_comma_before_unit :
-    parse "1,千".toList = some "1000".toList ∧ parse "1,00万".toList = some "1000000".toList := by
+    parse .pinned "1,千".toList = some "1000".toList ∧ parse .pinned "1,00万".toList = some "1000000".toList := by
   refine ⟨by decide, by decide⟩
 
 /-- Clause 2 violated: large units out of order are accepted when the digits do not overlap
 (finding F4). -/
 theorem reject_malformed_counterexample_unit_order :
-    parse "十万一万".toList = some "110000".toList ∧ parse "千万百万".toList = some "11000000".toList := by
+    parse .pinned "十万一万".toList = some "110000".toList ∧
+      parse .pinned "千万百万".toList = some "11000000".toList := by
   refine ⟨by decide, by decide⟩
 
 /-- the un-joined path of the text `7十九三.`: five one-character nodes, all tagged as numerals -/
@@ -146,17 +163,175 @@ def f6Path : List Node :=
 but because a point follows, the error state is POINT and the plugin joins the four characters into
 one token whose normalised form is "0" — a wrong value (finding F6). -/
 theorem reject_malformed_counterexample_trailing_separator :
-    (match rewrite true [1, 2, 2, 2, 0] f6Path with
+    (match rewrite .pinned true [1, 2, 2, 2, 0] f6Path with
       | .ok p => p.map (fun n => (n.b, n.e, n.norm))
       | _ => []) = [(0, 4, ['0']), (4, 5, ['.'])] := by decide
 
 /-- the same malformed numeral without the trailing point is left alone -/
-theorem trailing_separator_contrast :
-    (match rewrite true [1, 2, 2, 2] (f6Path.take 4) with
+theorem trailing_separator_contrast (v : Variant) (hv : v = Variant.pinned ∨ v = Variant.repaired) :
+    (match rewrite v true [1, 2, 2, 2] (f6Path.take 4) with
       | .ok p => p.map (fun n => (n.b, n.e, n.norm))
-      | _ => []) = [(0, 1, ['7']), (1, 2, ['十']), (2, 3, ['九']), (3, 4, ['三'])] := by decide
+      | _ => []) = [(0, 1, ['7']), (1, 2, ['十']), (2, 3, ['九']), (3, 4, ['三'])] := by
+  rcases hv with rfl | rfl <;> decide
+
+/-! ## the repaired parser -/
+
+/-- **Clause 2, full statement, repaired code** (it only needs the repairs F1–F4): whatever the
+parser accepts is the rendering of a numeral AST that is well-formed — every written number obeys
+the separator rules (`IntPart.WF`: first group of 1–3 digits that is not all zeros, then groups of
+exactly three; a fraction has digits and no separators; no dangling point — there is no AST for
+it), every large unit has a coefficient or small-unit terms in front of it, the large units
+strictly decrease — and whose terms fit positionally (`Numeral.Fits`: each term lies entirely in
+the decimal positions the previous one leaves free, inside a group and from group to group).
+(The empty text is the rendering of the empty numeral; the plugin never parses an empty run.) -/
+theorem reject_malformed (v : Variant) (h1 : v.f1 = true) (h2 : v.f2 = true) (h3 : v.f3 = true)
+    (h4 : v.f4 = true) (text s : List Char) (h : parse v text = some s) :
+    ∃ a : Numeral, a.WF ∧ a.Fits ∧ render a = text :=
+  accepted_wellformed v h1 h2 h3 h4 text s h
+
+/-- a consequence of `Numeral.Fits`: inside every group the small units strictly decrease -/
+theorem wellformed_small_units_decrease (a : Numeral) (hw : a.WF) (hf : a.Fits) :
+    (∀ t ∈ a.larges, (t.1.smalls.map (fun x => x.2.exp)).Pairwise (· > ·)) ∧
+    (a.rest.smalls.map (fun x => x.2.exp)).Pairwise (· > ·) := by
+  constructor
+  · intro t ht
+    have hfit := hf.1 t ht
+    simp only [groupSpans] at hfit
+    have : Fit (smallSpans t.1.smalls) := by
+      cases hl : t.1.last with
+      | none => simpa [hl, lastSpans] using hfit
+      | some r => rw [hl] at hfit; exact ((fit_snoc _ _).1 hfit).1
+    exact fit_small_order _ (hw.1 t ht).1.1 this
+  · have hfit := hf.2.1
+    simp only [groupSpans] at hfit
+    have : Fit (smallSpans a.rest.smalls) := by
+      cases hl : a.rest.last with
+      | none => simpa [hl, lastSpans] using hfit
+      | some r => rw [hl] at hfit; exact ((fit_snoc _ _).1 hfit).1
+    exact fit_small_order _ hw.2.2.1 this
+
+/-- Clause 2, family F1, for every instance and wherever it occurs (repair F1 alone): after a point
+and any fraction digits a thousands separator is never accepted. -/
+theorem reject_comma_in_fraction_anywhere (v : Variant) (hv : v.f1 = true) (pre : List Char) (fs : List Dg)
+    (post : List Char) : parse v (pre ++ '.' :: (renderDigits fs ++ ',' :: post)) = none :=
+  reject_comma_in_fraction_any v hv pre fs post
+
+/-- Clause 2, family F2 (repair F2 alone): a unit directly after a point is never accepted. -/
+theorem reject_point_before_unit_anywhere (v : Variant) (hv : v.f2 = true) (pre : List Char) (c : Char)
+    (hc : IsUnit c) (post : List Char) : parse v (pre ++ '.' :: c :: post) = none :=
+  reject_point_before_unit_any v hv pre c hc post
+
+/-- Clause 2, family F3 (repair F3 alone): a unit directly after a separator group that does not
+have exactly three digits (the empty group included) is never accepted. -/
+theorem reject_open_group_before_unit_anywhere (v : Variant) (hv : v.f3 = true) (pre : List Char)
+    (g : List Dg) (hg : g.length ≠ 3) (c : Char) (hc : IsUnit c) (post : List Char) :
+    parse v (pre ++ ',' :: (renderDigits g ++ c :: post)) = none :=
+  reject_open_group_before_unit_any v hv pre g hg c hc post
+
+/-- Clause 2, family F4 (repair F4 alone): a large unit that is not smaller than the previous large
+unit (`mid` is whatever stands between them) is never accepted. -/
+theorem reject_large_unit_order_anywhere (v : Variant) (hv : v.f4 = true) (pre mid post : List Char)
+    (U1 U2 : LargeU) (hle : U1.exp ≤ U2.exp) (hmid : ∀ c ∈ mid, ∀ U : LargeU, U.char ≠ c) :
+    parse v (pre ++ U1.char :: (mid ++ U2.char :: post)) = none :=
+  reject_large_unit_order_any v hv pre mid post U1 U2 hle hmid
+
+/-- Clause 1, rendering (repair F5 alone): the normal form of an accepted numeral that contains a
+unit has no leading zero — it is `0`, starts with a non-zero digit, or starts with `0.`. -/
+theorem unit_normal_form_no_leading_zero (v : Variant) (hv : v.f5 = true) (text s : List Char)
+    (h : parse v text = some s) (hu : ∃ c ∈ text, IsUnit c) : NoLeadingZero s :=
+  unit_no_leading_zero v hv text s h hu
+
+/-- F6 at the parser (repair F6 alone): `done()` sets the error state POINT/COMMA only when both
+final additions succeeded, i.e. when `total` holds the value of what was read — the condition under
+which the plugin may join the prefix in front of a trailing separator. -/
+theorem done_error_state_sound (v : Variant) (hv : v.f6 = true) (q : Parser) (he : q.err = .none)
+    (h : (q.done v).2.err ≠ .none) :
+    (q.subtotal.add q.tmp).1 = true ∧ (q.total.add (q.subtotal.add q.tmp).2.1).1 = true :=
+  done_error_sums_ok v hv q he h
+
+/-- the witnesses of F1–F6 on the repaired code: F1–F4 are no longer accepted, the F5 numerals are
+rendered without the leading zero, and the plugin leaves the overlapping numeral in front of the
+trailing point alone (F6) -/
+theorem repaired_witnesses :
+    parse .repaired "1.5,000".toList = none ∧ parse .repaired "7.,227".toList = none ∧
+    parse .repaired "1.千5".toList = none ∧
+    parse .repaired "1,千".toList = none ∧ parse .repaired "1,00万".toList = none ∧
+    parse .repaired "十万一万".toList = none ∧ parse .repaired "千万百万".toList = none ∧
+    parse .repaired "0.1万".toList = some "1000".toList ∧ parse .repaired "0.5百".toList = some "50".toList ∧
+    (match rewrite .repaired true [1, 2, 2, 2, 0] f6Path with
+      | .ok p => p.map (fun n => (n.b, n.e, n.norm))
+      | _ => []) = [(0, 1, ['7']), (1, 2, ['十']), (2, 3, ['九']), (3, 4, ['三']), (4, 5, ['.'])] := by
+  refine ⟨by decide, by decide, by decide, by decide, by decide, by decide, by decide, by decide, by decide,
+    by decide⟩
+
+/-- the last two repairs taken alone on their witnesses (F1–F4 alone: the `_anywhere` theorems) -/
+theorem single_repair_witnesses :
+    parse { Variant.pinned with f5 := true } "0.1万".toList = some "1000".toList ∧
+    (match rewrite { Variant.pinned with f6 := true } true [1, 2, 2, 2, 0] f6Path with
+      | .ok p => p.map (fun n => (n.b, n.e, n.norm))
+      | _ => []) = [(0, 1, ['7']), (1, 2, ['十']), (2, 3, ['九']), (3, 4, ['三']), (4, 5, ['.'])] := by
+  refine ⟨by decide, by decide⟩
 
 /-! non-vacuity of the hypotheses -/
+
+/-- the repaired variant has the four switches `reject_malformed` asks for, and there are accepted
+texts with units (`1.5百万1.5千20`) -/
+example : Variant.repaired.f1 = true ∧ Variant.repaired.f2 = true ∧ Variant.repaired.f3 = true ∧
+    Variant.repaired.f4 = true ∧ Variant.repaired.f5 = true ∧ Variant.repaired.f6 = true ∧
+    parse .repaired "1.5百万1.5千20".toList = some "1501520".toList := by
+  refine ⟨rfl, rfl, rfl, rfl, rfl, rfl, by decide⟩
+
+/-- `1.5百万1.5千20` as an AST: one large group `1.5百` before 万, then `1.5千` and `20`; it is
+well-formed, fits, and renders to the text -/
+def exUnits : Numeral :=
+  let r15 : Run := ⟨⟨[⟨false, 1⟩], []⟩, [⟨false, 5⟩]⟩
+  ⟨[(⟨[(some r15, .hundred)], none⟩, .man)], ⟨[(some r15, .thousand)], some ⟨⟨[⟨false, 2⟩, ⟨false, 0⟩], []⟩, []⟩⟩⟩
+
+example : render exUnits = "1.5百万1.5千20".toList ∧ exUnits.Fits := by
+  refine ⟨by decide, ?_, ?_, ?_⟩
+  · intro t ht
+    simp only [exUnits, List.mem_singleton] at ht
+    subst ht
+    simp [groupSpans, smallSpans, lastSpans, Fit]
+  · simp [exUnits, groupSpans, smallSpans, lastSpans, termSpan, Fit, Run.il, Run.fl, IntPart.len, SmallU.exp]
+  · simp [exUnits, largeSpans, groupSpans, smallSpans, lastSpans, termSpan, Fit, spanOf, Run.il, Run.fl,
+      IntPart.len, SmallU.exp, LargeU.exp]
+
+example : exUnits.WF := by
+  refine ⟨?_, by simp [exUnits], ?_, ?_⟩
+  · intro t ht
+    simp only [exUnits, List.mem_singleton] at ht
+    subst ht
+    refine ⟨⟨?_, trivial⟩, Or.inl (by simp)⟩
+    intro x hx
+    simp only [List.mem_singleton] at hx
+    subst hx
+    exact ⟨by simp, by simp, by simp⟩
+  · intro x hx
+    simp only [exUnits, List.mem_singleton] at hx
+    subst hx
+    exact ⟨by simp, by simp, by simp⟩
+  · exact ⟨by simp [exUnits], by simp [exUnits], by simp [exUnits]⟩
+
+/-- units exist; a large unit that is not smaller; text between two large units without a large unit -/
+example : IsUnit '千' ∧ IsUnit '万' ∧ LargeU.man.exp ≤ LargeU.man.exp ∧ LargeU.man.exp ≤ LargeU.oku.exp ∧
+    (∀ c ∈ ['一'], ∀ U : LargeU, U.char ≠ c) := by
+  refine ⟨Or.inl ⟨.thousand, rfl⟩, Or.inr ⟨.man, rfl⟩, by decide, by decide, ?_⟩
+  intro c hc U
+  simp only [List.mem_singleton] at hc
+  subst hc
+  cases U <;> decide
+
+/-- a parser state in which `done()` (repaired) reports POINT: after `6.` -/
+example : ((Parser.new.feed .repaired "6.".toList 0).2.2.done .repaired).2.err = .point ∧
+    (Parser.new.feed .repaired "6.".toList 0).2.2.err = .none := by
+  refine ⟨by decide, by decide⟩
+
+/-- a text with a unit that is accepted by the variant with repair F5 alone -/
+example : parse { Variant.pinned with f5 := true } "0.5百".toList = some "50".toList ∧
+    (∃ c ∈ "0.5百".toList, IsUnit c) := by
+  refine ⟨by decide, '百', by decide, Or.inl ⟨.hundred, rfl⟩⟩
+
 
 /-- `12,345` -/
 def ex12345 : IntPart := ⟨[⟨false, 1⟩, ⟨false, 2⟩], [[⟨false, 3⟩, ⟨true, 4⟩, ⟨false, 5⟩]]⟩
